@@ -102,8 +102,13 @@ func (r *FnRun) oblige(st *State, kind, label string, tags []string, goal string
 		name += "@" + anchor
 	}
 	o := &Obligation{Name: name, Func: r.relName, Pkg: r.fn.Pkg.Pkg.Path(), Kind: kind, Label: label, Tags: tags,
-		Query: &Query{Name: name, Asserts: st.pcList(), Goal: goal}, Abstracted: st.abstracted, Pos: pos,
-		PathDesc: strings.Join(st.trail, " > "), ClauseKey: ck, Expect: "unsat"}
+		Abstracted: st.abstracted, Pos: pos, ClauseKey: ck, Expect: "unsat"}
+	if r.eng.wanted != nil && !r.eng.wanted(r, o) {
+		// not claimed by the property being checked: never built, never solved
+		return
+	}
+	o.Query = &Query{Name: name, Asserts: st.pcList(), Goal: goal}
+	o.PathDesc = strings.Join(st.trail, " > ")
 	r.obls = append(r.obls, o)
 }
 
@@ -1899,13 +1904,23 @@ func errResult(c *ssa.CallCommon, res *V) *V {
 	return nil
 }
 
+// errorConstructors return an error as their value, not as a report of their own failure.
+func errorConstructor(name string) bool {
+	for _, p := range []string{"fmt.Errorf", "errors.", "multierror.", "(*multierror.Error).", "(*go-multierror.Error).", "context.Context.Err", "go-multierror."} {
+		if strings.HasPrefix(name, p) {
+			return true
+		}
+	}
+	return false
+}
+
 func (r *FnRun) countFailure(st *State, c *ssa.CallCommon, res *V) {
 	e := errResult(c, res)
 	if e == nil {
 		return
 	}
 	name := r.calleeName(c)
-	if name == "" {
+	if name == "" || errorConstructor(name) {
 		return
 	}
 	key := "fail:" + name
@@ -1940,7 +1955,7 @@ func (r *FnRun) failKeys() []string {
 			if n == 0 || types.TypeString(sig.Results().At(n-1).Type(), nil) != "error" {
 				continue
 			}
-			if name := r.calleeName(&call.Call); name != "" && !seen[name] {
+			if name := r.calleeName(&call.Call); name != "" && !seen[name] && !errorConstructor(name) {
 				seen[name] = true
 				r.failKeyList = append(r.failKeyList, name)
 			}
